@@ -20,15 +20,15 @@ def mc_cfg(**k):
 
 QUICK_MC = [
     ("lifecycle", dict(Sids='{"s1", "s2"}', StaticSids='{"s2"}', AnnKinds='{"a1", "a2", "u1"}', Vers='{"v1", "v2"}',
-                       Lids='{}', Thresholds='{1}', MaxObjs=3, MaxTime=2, MaxConnects=1)),
+                       Lids='{}', Thresholds='{1}', MaxObjs=3, MaxTime=2, MaxConnects=1, MaxTotalConnects=3, WithDead='TRUE')),
     ("thresholds", dict(Sids='{"s1", "s2"}', StaticSids='{}', AnnKinds='{"a1", "a2"}', Vers='{"v1"}',
-                        Lids='{1, 2}', Thresholds='{1, 2}', MaxObjs=3, MaxTime=1, MaxConnects=2)),
+                        Lids='{1, 2}', Thresholds='{1, 2}', MaxObjs=3, MaxTime=1, MaxConnects=2, MaxTotalConnects=3, WithDead='FALSE')),
 ]
 THOROUGH_MC = [
     ("lifecycle", dict(Sids='{"s1", "s2"}', StaticSids='{"s2"}', AnnKinds='{"a1", "a2", "u1"}', Vers='{"v1", "v2"}',
-                       Lids='{1}', Thresholds='{1, 2}', MaxObjs=4, MaxTime=2, MaxConnects=2)),
+                       Lids='{1}', Thresholds='{1, 2}', MaxObjs=4, MaxTime=2, MaxConnects=2, MaxTotalConnects=4, WithDead='TRUE')),
     ("thresholds", dict(Sids='{"s1", "s2", "s3"}', StaticSids='{"s3"}', AnnKinds='{"a1", "a2"}', Vers='{"v1"}',
-                        Lids='{1, 2}', Thresholds='{1, 2, 3}', MaxObjs=4, MaxTime=1, MaxConnects=2)),
+                        Lids='{1, 2}', Thresholds='{1, 2, 3}', MaxObjs=4, MaxTime=1, MaxConnects=2, MaxTotalConnects=5, WithDead='FALSE')),
 ]
 
 
@@ -70,21 +70,22 @@ def run(ctx):
         ctx.constants["MC " + name] = consts
         ctx.mc("net/MCStorageClientState", mc_cfg(**consts), name="MC storage client state (%s)" % name, timeout=3000)
 
-    plan = ([("direct", 0, 40, 25), ("prod", 0, 40, 25), ("direct", 1, 12, 25), ("prod", 1, 8, 25)] if ctx.quick else
+    plan = ([("direct", 0, 30, 24), ("prod", 0, 30, 24), ("direct", 1, 8, 24), ("prod", 1, 6, 24)] if ctx.quick else
             [("direct", 0, 600, 40), ("prod", 0, 600, 40), ("direct", 1, 60, 30), ("prod", 1, 60, 30)])
-    alltraces = []
-    for mode, legacy, n, ev in plan:
-        traces = ctx.impl("harness/storclient_driver.py", ["--mode", mode, "--legacy", legacy, "--n", n, "--events", ev])
-        for tr in traces:
-            prev = None
-            for e in tr["events"]:
-                o = e["obs"]
-                sig = [o["cur"], o["connected"], o["fired"], o["nobjs"]]
-                core = {k: v for k, v in e.items() if k != "obs"}
-                ctx.count(json.dumps([tr["consts"]["mode"], tr["consts"]["static"], core, sig], sort_keys=True) if sig != prev else None)
-                prev = sig
-        ctx.sample({"mode": mode, "legacy": legacy, "consts": {k: traces[0]["consts"][k] for k in ("sids", "static", "lids")},
-                    "events": [{k: v for k, v in e.items() if k != "obs"} for e in traces[0]["events"][:8]],
-                    "objects_after_event_3": traces[0]["events"][min(2, len(traces[0]["events"]) - 1)]["obs"]["objs"]}, limit=2)
-        alltraces += traces
+    alltraces = ctx.impl("harness/storclient_driver.py", ["--plan", json.dumps(plan)])
+    shown = set()
+    for tr in alltraces:
+        prev = None
+        for e in tr["events"]:
+            o = e["obs"]
+            sig = [o["cur"], o["connected"], o["fired"], o["nobjs"]]
+            core = {k: v for k, v in e.items() if k != "obs"}
+            ctx.count(json.dumps([tr["consts"]["mode"], tr["consts"]["static"], core, sig], sort_keys=True) if sig != prev else None)
+            prev = sig
+        tag = (tr["consts"]["mode"], tr["consts"]["legacy"])
+        if tag not in shown and tag[1] is False:
+            shown.add(tag)
+            ctx.sample({"mode": tag[0], "consts": {k: tr["consts"][k] for k in ("sids", "static", "lids")},
+                        "events": [{k: v for k, v in e.items() if k != "obs"} for e in tr["events"][:8]],
+                        "objects_after_event_3": tr["events"][min(2, len(tr["events"]) - 1)]["obs"]["objs"]}, limit=2)
     ctx.trace("net/TraceStorageClientState", alltraces, key_of=key_of, what_of=what_of, batch=400)
